@@ -5,7 +5,7 @@ use std::panic::{catch_unwind, AssertUnwindSafe};
 use yamaquasi::arith_montgomery::ZmodN;
 use yamaquasi::relations::verif_hooks as vh;
 use yamaquasi::relations::{self, Relation, RelationSet};
-use yamaquasi::Uint;
+use yamaquasi::{Algo, Preferences, Uint, Verbosity};
 
 pub fn parse_factors(s: &str) -> Option<Vec<(i64, u64)>> {
     if s == "-" {
@@ -140,7 +140,125 @@ pub fn run_history(
     format!("{} | {}", recs.join(";"), show_store(&s))
 }
 
+/// `sieve_history <alg> <n> [threads=<t>] [dbl=<0|1>] [fb=<size>] [lf=<factor>]`:
+/// runs the real sieve with the add-history observer on, takes the store that received most adds,
+/// and answers `<result> || <n> <fbsize> <maxlarge> <items> || <answer of rs_history on that history>`
+/// (the last part is computed by replaying the recorded history on a fresh real `RelationSet`).
+fn sieve_history(a: &[&str]) -> Option<String> {
+    use std::str::FromStr;
+    let alg = Algo::from_str(a.first()?).ok()?;
+    let n = uint_of(a.get(1)?)?;
+    let mut prefs = Preferences::default();
+    prefs.verbosity = Verbosity::Silent;
+    prefs.threads = Some(1);
+    for kv in &a[2..] {
+        let (k, v) = kv.split_once('=')?;
+        match k {
+            "threads" => prefs.threads = Some(v.parse().ok()?),
+            "dbl" => prefs.use_double = Some(v == "1"),
+            "fb" => prefs.fb_size = Some(v.parse().ok()?),
+            "lf" => prefs.large_factor = Some(v.parse().ok()?),
+            _ => return None,
+        }
+    }
+    vh::history_start();
+    let r = catch_unwind(AssertUnwindSafe(|| yamaquasi::factor(n, alg, &prefs)));
+    let h = vh::history_take();
+    let res = match r {
+        Ok(Ok(v)) => format!("ok {}", show_list(&v)),
+        Ok(Err(_)) => "failure".to_string(),
+        Err(_) => "panic".to_string(),
+    };
+    // segments: (params, items)
+    let mut segs: Vec<(String, Vec<&str>)> = vec![];
+    for t in &h {
+        if let Some(p) = t.strip_prefix("new|") {
+            segs.push((p.replace('|', " "), vec![]));
+        } else if t.starts_with("final|") {
+            continue;
+        } else if let Some(last) = segs.last_mut() {
+            last.1.push(t.as_str());
+        }
+    }
+    let Some((params, items)) = segs.into_iter().max_by_key(|s| s.1.len()) else {
+        return Some(format!("{res} || - || -"));
+    };
+    if items.is_empty() {
+        return Some(format!("{res} || - || -"));
+    }
+    let p: Vec<&str> = params.split(' ').collect();
+    let hist = items.join(";");
+    let expected = run_history(
+        uint_of(p[0])?,
+        p[1].parse().ok()?,
+        p[2].parse().ok()?,
+        parse_history(&hist)?,
+    );
+    Some(format!("{res} || {params} {hist} || {expected}"))
+}
+
+/// `sieve_final <alg> <n> [threads=..] [dbl=..] [fb=..] [lf=..]`: runs the real sieve with the
+/// `final_step` observers on and answers
+/// `<result> || <n> <fb primes> <rels> <kernel> || <divisors>` for the last `final_step` call
+/// (`-` for empty lists; kernel = index lists joined by `;`).
+fn sieve_final(a: &[&str]) -> Option<String> {
+    use std::str::FromStr;
+    let alg = Algo::from_str(a.first()?).ok()?;
+    let n = uint_of(a.get(1)?)?;
+    let mut prefs = Preferences::default();
+    prefs.verbosity = Verbosity::Silent;
+    prefs.threads = Some(1);
+    for kv in &a[2..] {
+        let (k, v) = kv.split_once('=')?;
+        match k {
+            "threads" => prefs.threads = Some(v.parse().ok()?),
+            "dbl" => prefs.use_double = Some(v == "1"),
+            "fb" => prefs.fb_size = Some(v.parse().ok()?),
+            "lf" => prefs.large_factor = Some(v.parse().ok()?),
+            _ => return None,
+        }
+    }
+    vh::final_start();
+    let r = catch_unwind(AssertUnwindSafe(|| yamaquasi::factor(n, alg, &prefs)));
+    let log = vh::final_take();
+    let res = match r {
+        Ok(Ok(v)) => format!("ok {}", show_list(&v)),
+        Ok(Err(_)) => "failure".to_string(),
+        Err(_) => "panic".to_string(),
+    };
+    // last complete (step, kernel, divs) triple
+    let mut best: Option<(usize, usize, usize)> = None;
+    for i in 0..log.len() {
+        if log[i].starts_with("step|")
+            && i + 2 < log.len()
+            && log[i + 1].starts_with("kernel|")
+            && log[i + 2].starts_with("divs|")
+        {
+            best = Some((i, i + 1, i + 2));
+        }
+    }
+    let Some((i, j, k)) = best else {
+        return Some(format!("{res} || - || -"));
+    };
+    let dash = |s: &str| if s.is_empty() { "-".to_string() } else { s.to_string() };
+    let st: Vec<&str> = log[i].splitn(4, '|').collect();
+    let kernel = dash(&log[j]["kernel|".len()..]);
+    let divs = dash(&log[k]["divs|".len()..]);
+    Some(format!(
+        "{res} || {} {} {} {kernel} || {divs}",
+        st[1],
+        dash(st[2]),
+        dash(st[3])
+    ))
+}
+
 pub fn handle(op: &str, a: &[&str]) -> Option<String> {
+    if op == "sieve_history" {
+        return sieve_history(a);
+    }
+    if op == "sieve_final" {
+        return sieve_final(a);
+    }
     match (op, a) {
         ("rel_verify", [n, r]) => Some(parse_rel(r)?.verify(&uint_of(n)?).to_string()),
         ("rs_combine", [n, r1, r2]) => {
